@@ -61,8 +61,20 @@ fn main() {
         // what the i-th call is: 0 = next(), 1 = read_record_set(), 2 = read_record_set_exact(n)
         let exact_n: usize = if mode.starts_with('x') { mode[1..].parse().unwrap() } else { 0 };
         let mixed_k: usize = if mode.starts_with('m') { mode[1..].parse().unwrap() } else { 0 };
+        // kn<j>.<line>.<byte> / ks<j>.<line>.<byte>: single reads / plain set reads; the call with index i is a
+        // seek to (line, byte) when i % j == j - 1, at most three times (kind 3)
+        let (seek_j, seek_line, seek_byte, seek_sets) = if mode.starts_with('k') {
+            let p: Vec<&str> = mode[2..].split('.').collect();
+            (p[0].parse::<usize>().unwrap().max(1), p[1].parse::<u64>().unwrap(), p[2].parse::<u64>().unwrap(), &mode[1..2] == "s")
+        } else {
+            (0usize, 0u64, 0u64, false)
+        };
+        let seeks_left = Cell::new(3usize);
         let kind_of = |i: usize| -> u8 {
-            if mode == "next" { 0 } else if mode == "set" { 1 } else if mode.starts_with('x') { 2 }
+            if seek_j > 0 {
+                if seeks_left.get() > 0 && i % seek_j == seek_j - 1 { seeks_left.set(seeks_left.get() - 1); 3 }
+                else if seek_sets { 1 } else { 0 }
+            } else if mode == "next" { 0 } else if mode == "set" { 1 } else if mode.starts_with('x') { 2 }
             else if i < mixed_k { 0 } else { 1 }
         };
         let warm: usize = t[5].parse().unwrap();
@@ -72,12 +84,14 @@ fn main() {
         let mut records = 0usize;
         let mut sink = 0usize;
         if fmt == "fa" {
-            let mut rd = fasta::Reader::with_capacity(&inp[..], cap).set_policy(CountPol { grows: grows.clone() });
+            let mut rd = fasta::Reader::with_capacity(std::io::Cursor::new(&inp[..]), cap).set_policy(CountPol { grows: grows.clone() });
             let mut set = fasta::RecordSet::default();
             loop {
                 let before = ALLOCS.load(Ordering::Relaxed);
                 let kind = kind_of(deltas.len());
-                let more = if kind == 0 {
+                let more = if kind == 3 {
+                    rd.seek(&fasta::Position::new(seek_line, seek_byte)).is_ok()
+                } else if kind == 0 {
                     match rd.next() {
                         Some(Ok(rec)) => {
                             use fasta::Record;
@@ -112,12 +126,14 @@ fn main() {
                 }
             }
         } else {
-            let mut rd = fastq::Reader::with_capacity(&inp[..], cap).set_policy(CountPol { grows: grows.clone() });
+            let mut rd = fastq::Reader::with_capacity(std::io::Cursor::new(&inp[..]), cap).set_policy(CountPol { grows: grows.clone() });
             let mut set = fastq::RecordSet::default();
             loop {
                 let before = ALLOCS.load(Ordering::Relaxed);
                 let kind = kind_of(deltas.len());
-                let more = if kind == 0 {
+                let more = if kind == 3 {
+                    rd.seek(&fastq::Position::new(seek_line, seek_byte)).is_ok()
+                } else if kind == 0 {
                     match rd.next() {
                         Some(Ok(rec)) => {
                             use fastq::Record;
